@@ -240,7 +240,7 @@ let tie_checks (o : outrec) (c : ctx) (m : ms) (r : msrec) : string list =
    | Some e -> if e <> sl then d := Printf.sprintf "script_len model=%d encode().len()=%d" sl e :: !d
    | None -> ());
   (match lim_int lim "size" with
-   | Some e -> if !cur_mode = "real" && e <> sl then d := Printf.sprintf "script_len model=%d script_size()=%d" sl e :: !d
+   | Some e -> if !cur_mode <> "string" && e <> sl then d := Printf.sprintf "script_len model=%d script_size()=%d" sl e :: !d
    | None -> ());
   (* the execution figures are NOT ties: the model's are static over-approximations of the true
      maxima, the implementation's are its own estimates (C09 judges those); only recorded *)
@@ -277,11 +277,22 @@ let get_pol () : vpolicy =
   | None -> let p = parse_pol (split !cur_pol) in Hashtbl.reset pol_memo; Hashtbl.replace pol_memo !cur_pol p; p
 
 (* which restriction of the context an output breaks (refines the ClCtx clause in keys) *)
+let cur_kk : (n * kkind) list ref = ref []
+let key_allowed (c : ctx) (k : n) : bool =
+  match c, kk_of_list !cur_kk k with
+  | (Bare | Legacy), (KComp | KUncomp) -> true
+  | Segwitv0, KComp -> true
+  | Tap, (KComp | KXOnly) -> true
+  | _ -> false
 let ctx_reason (c : ctx) (ms_list : ms list) : string =
   let legacy = (c = Bare || c = Legacy) in
   let subs = List.concat_map subterms ms_list in
   let has f = List.exists f subs in
-  if has (function MOrI _ -> legacy | _ -> false) then "or_i"
+  if has (function
+      | MPkK k | MPkH k -> not (key_allowed c k)
+      | MMulti (_, ks) | MSortedMulti (_, ks) | MMultiA (_, ks) | MSortedMultiA (_, ks) -> List.exists (fun k -> not (key_allowed c k)) ks
+      | _ -> false) then "key_kind"
+  else if has (function MOrI _ -> legacy | _ -> false) then "or_i"
   else if has (function MDupIf _ -> legacy | _ -> false) then "dup_if"
   else if has (function MMulti _ | MSortedMulti _ -> c = Tap | _ -> false) then "multi"
   else if has (function MMultiA _ | MSortedMultiA _ -> c <> Tap | _ -> false) then "multi_a"
@@ -301,6 +312,7 @@ let report_bad (o : outrec) (clauses : string list) (world : string) (mstoks : s
 
 let finish_out (o : outrec) =
   incr n_ok;
+  cur_kk := o.kk;
   let pol = get_pol () in
   let mss = List.rev o.mss in
   bump (Printf.sprintf "ok/%s/%s" o.api (if o.desc = "" then o.octx else o.desc));
